@@ -109,7 +109,7 @@ def check_C11(tier):
     res.extra["token_strings_accepted"] = len([t for t in toks if t["accept"]])
     # (3) duplicates and (4) mirror
     asts = idl_asts(res, "dups", 1, 3) + idl_asts(res, "types", 3 if thorough else 2, 3) + idl_asts(res, "shapes", 1, 3 if not thorough else 4) \
-        + idl_asts(res, "stacked", 1, 3)
+        + idl_asts(res, "stacked", 1, 3) + idl_asts(res, "recursive", 1, 3)
     fails, summ, _ = run_vh_parallel(vh, ["idlast", "--tier=" + tier], asts)
     res.add_failures(fails, "mirror")
     res.traces += summ["executions"]
@@ -170,7 +170,7 @@ def check_C10(tier):
     if not thorough:
         asts = asts[:165] + asts[165::4]
     # qualifiers stacked in front of anonymous structs / enums (every pair, triples): always all of them
-    asts += idl_asts(res, "stacked", 1, 3)
+    asts += idl_asts(res, "stacked", 1, 3) + idl_asts(res, "recursive", 1, 3)
     fails, summ, _ = run_vh_parallel(vh, ["idlast", "--format", "--tier=" + tier], asts, n=12, timeout=3000,
                                      env={"VERIF_VARLINK_BIN": os.path.join(bins, "varlink")})
     res.add_failures(fails, "format")
